@@ -1038,3 +1038,211 @@ Definition clone_conv_io (fuel : nat) (j : json) : option (json * json) :=
   | None => None
   | Some (r, lg, _) => Some (erase r, erase (apply_log lg s))
   end.
+
+(* ------------------------------------------------------------------------------------ *)
+(* 10. WHERE the pattern rewriter runs: the conversion pipeline of one parameter location *)
+(*     (_hypothesis.py get_parameters_strategy -> get_schema_for_location ->             *)
+(*      parameters.py parameters_to_json_schema -> OpenAPIParameter.as_json_schema ->     *)
+(*      converter.to_json_schema_recursive; then make_positive_strategy -> from_schema)   *)
+(* ------------------------------------------------------------------------------------ *)
+Inductive ploc := LPath | LQuery | LHeader | LCookie.
+Inductive ptype := TyString | TyInteger | TyBoolean.
+
+(* the keywords of a DECLARED parameter schema the pipeline looks at *)
+Record decl := mkDecl {
+  d_type : option ptype;          (* the type keyword, when written *)
+  d_nullable : nstate;            (* nullable / x-nullable (the keyword of the dialect): absent, true, false *)
+  d_other : bool;                 (* some further keyword is present (enum, format, example ...) *)
+  d_pattern : option pattern;
+  d_min : option Z;               (* minLength *)
+  d_max : option Z }.             (* maxLength *)
+
+(* one dict of the generation schema that may carry pattern / minLength / maxLength *)
+Record kw := mkKw {
+  k_type : option ptype;
+  k_pattern : option pattern;
+  k_rewritten : bool;             (* the pattern text was replaced by update_pattern_in_schema *)
+  k_min : option Z;
+  k_max : option Z;
+  k_other : bool;                 (* keys besides type / pattern / minLength / maxLength / format *)
+  k_format : bool }.              (* format: _header_value was added *)
+
+(* the property of the location object: the dict itself, or anyOf [dict, null] with its own type / minLength next to anyOf *)
+Inductive gprop :=
+| GPlain (k : kw)
+| GNullable (outer_type : option ptype) (outer_min : option Z) (k : kw).
+
+Definition g_kw (g : gprop) : kw := match g with GPlain k => k | GNullable _ _ k => k end.
+Definition g_pattern (g : gprop) : option pattern := k_pattern (g_kw g).
+Definition g_rewritten (g : gprop) : bool := k_rewritten (g_kw g).
+
+Definition set_pattern (k : kw) (p : pattern) : kw :=
+  mkKw (k_type k) (Some p) true None None (k_other k) (k_format k).
+Definition set_type (k : kw) (t : option ptype) : kw :=
+  mkKw t (k_pattern k) (k_rewritten k) (k_min k) (k_max k) (k_other k) (k_format k).
+Definition set_min (k : kw) (m : option Z) : kw :=
+  mkKw (k_type k) (k_pattern k) (k_rewritten k) m (k_max k) (k_other k) (k_format k).
+Definition set_format (k : kw) : kw :=
+  mkKw (k_type k) (k_pattern k) (k_rewritten k) (k_min k) (k_max k) (k_other k) true.
+
+(* converter.py:45 update_pattern_in_schema applied to one dict (section 3 gives the triple; here the dict) *)
+Definition rewrite_kw (k : kw) : option kw :=
+  match k_pattern k with
+  | None => Some k
+  | Some [] => Some k
+  | Some p =>
+    if py_truthy (k_min k) || py_truthy (k_max k) then
+      match update_quantifier p (k_min k) (k_max k) with
+      | Unchanged => Some k
+      | Rewritten p' => Some (set_pattern k p')
+      | RaisesInternal => None
+      end
+    else Some k
+  end.
+
+Definition setdefault {A} (o : option A) (v : A) : option A := match o with None => Some v | Some _ => o end.
+Definition is_string (t : option ptype) : bool := match t with Some TyString => true | _ => false end.
+Definition is_header_loc (l : ploc) : bool := match l with LHeader | LCookie => true | _ => false end.
+Definition is_path_loc (l : ploc) : bool := match l with LPath => true | _ => false end.
+Definition is_ntrue (n : nstate) : bool := match n with NTrue => true | _ => false end.
+Definition is_nfalse (n : nstate) : bool := match n with NFalse => true | _ => false end.
+
+(* parameters.py from_open_api_to_json_schema (keyword filter) + converter.to_json_schema_recursive:
+   nullable: true is deleted and the dict is wrapped (the callback finds no pattern on the wrapper); transform then
+   visits the inner dict, where - as for a dict that is not wrapped - update_pattern_in_schema runs on the keywords
+   THE AUTHOR WROTE.  An explicit nullable: false stays in the dict as a key.  None = InternalError escapes. *)
+Definition convert (d : decl) : option gprop :=
+  let k := mkKw (d_type d) (d_pattern d) false (d_min d) (d_max d) (d_other d || is_nfalse (d_nullable d)) false in
+  match rewrite_kw k with
+  | None => None
+  | Some k' => Some (if is_ntrue (d_nullable d) then GNullable None None k' else GPlain k')
+  end.
+
+(* the later steps, each on the OUTER dict of one property *)
+Inductive pstep :=
+| SHeaderType      (* parameters.py transform_keywords: if is_header: definition.setdefault(type, string) *)
+| SPathDefaults    (* _hypothesis.py get_schema_for_location: path and type == string: prop.setdefault(minLength, 1) *)
+| SRewriteOuter    (* update_pattern_in_schema(prop) - NOT a step of the code as it is *)
+| SHeaderFormat.   (* _hypothesis.py make_positive_strategy: header and list(sub_schema) == [type] and type == string *)
+
+Definition is_rewrite_step (s : pstep) : bool := match s with SRewriteOuter => true | _ => false end.
+
+Definition only_type_string (k : kw) : bool :=
+  is_string (k_type k) && negb (k_other k) && negb (k_format k) &&
+  match k_pattern k, k_min k, k_max k with None, None, None => true | _, _, _ => false end.
+
+Definition apply_step (l : ploc) (s : pstep) (g : gprop) : option gprop :=
+  match s with
+  | SHeaderType =>
+    if is_header_loc l then
+      Some (match g with
+            | GPlain k => GPlain (set_type k (setdefault (k_type k) TyString))
+            | GNullable t m k => GNullable (setdefault t TyString) m k
+            end)
+    else Some g
+  | SPathDefaults =>
+    if is_path_loc l then
+      Some (match g with
+            | GPlain k => if is_string (k_type k) then GPlain (set_min k (setdefault (k_min k) 1)) else g
+            | GNullable t m k => if is_string t then GNullable t (setdefault m 1) k else g
+            end)
+    else Some g
+  | SRewriteOuter =>
+    match g with
+    | GPlain k => match rewrite_kw k with Some k' => Some (GPlain k') | None => None end
+    | GNullable _ _ _ => Some g        (* the wrapper has no pattern key *)
+    end
+  | SHeaderFormat =>
+    if is_header_loc l then
+      Some (match g with
+            | GPlain k => if only_type_string k then GPlain (set_format k) else g
+            | GNullable _ _ _ => g
+            end)
+    else Some g
+  end.
+
+Fixpoint run_steps (l : ploc) (steps : list pstep) (g : gprop) : option gprop :=
+  match steps with
+  | [] => Some g
+  | s :: steps' => match apply_step l s g with Some g' => run_steps l steps' g' | None => None end
+  end.
+
+(* OpenAPIParameter.as_json_schema *)
+Definition as_json_schema (l : ploc) (d : decl) : option gprop :=
+  match convert d with Some g => apply_step l SHeaderType g | None => None end.
+
+(* what happens to every property AFTER parameters_to_json_schema built the object: the code as it is,
+   and the order with the rewriter called after the path default *)
+Definition dict_steps : list pstep := [SPathDefaults; SHeaderFormat].
+Definition seeded_dict_steps : list pstep := [SPathDefaults; SRewriteOuter; SHeaderFormat].
+
+(* the generation schema of ONE parameter of a location *)
+Definition gen_prop_with (steps : list pstep) (l : ploc) (d : decl) : option gprop :=
+  match as_json_schema l d with Some g => run_steps l steps g | None => None end.
+Definition gen_prop : ploc -> decl -> option gprop := gen_prop_with dict_steps.
+
+(* ---- the whole location ---- *)
+Record param := mkParam { p_name : str; p_required : bool; p_decl : decl }.
+
+(* parameters.py:309 parameters_to_json_schema: properties[name] = ... (a later parameter of the same name wins),
+   required gets each required name once *)
+Fixpoint params_to_schema (l : ploc) (ps : list param) (props : list (str * gprop)) (req : list str)
+  : option (list (str * gprop) * list str) :=
+  match ps with
+  | [] => Some (props, req)
+  | p :: ps' =>
+    match as_json_schema l (p_decl p) with
+    | None => None
+    | Some g =>
+      params_to_schema l ps' (assoc_set (p_name p) g props)
+        (if p_required p && negb (has_key (p_name p) req) then req ++ [p_name p] else req)
+    end
+  end.
+
+Fixpoint map_steps (l : ploc) (steps : list pstep) (props : list (str * gprop)) : option (list (str * gprop)) :=
+  match props with
+  | [] => Some []
+  | (name, g) :: props' =>
+    match run_steps l steps g, map_steps l steps props' with
+    | Some g', Some r => Some ((name, g') :: r)
+    | _, _ => None
+    end
+  end.
+
+(* get_schema_for_location + make_positive_strategy: (properties, required) of the object handed to from_schema;
+   additionalProperties: false and type: object are constant *)
+Definition location_schema_with (steps : list pstep) (l : ploc) (ps : list param)
+  : option (list (str * gprop) * list str) :=
+  match params_to_schema l ps [] [] with
+  | None => None
+  | Some (props, req) =>
+    let req' := if is_path_loc l then map fst props else req in
+    match map_steps l steps props with
+    | Some props' => Some (props', req')
+    | None => None
+    end
+  end.
+Definition location_schema : ploc -> list param -> option (list (str * gprop) * list str) :=
+  location_schema_with dict_steps.
+
+(* the declared keywords have a truthy length bound: the only condition under which the rewriter may act *)
+Definition declared_length (d : decl) : bool := py_truthy (d_min d) || py_truthy (d_max d).
+
+(* all regions of C01_rewrite_sound_partial on the DECLARED keywords; trivially true when no length is declared *)
+Definition pipeline_region (d : decl) (s : str) : bool :=
+  match d_pattern d with
+  | None => true
+  | Some p =>
+    negb (declared_length d) ||
+    (wf_pattern p && max_small (d_max d) && anchored_for_max p (d_max d) && dollar_newline_ok p (d_max d) s &&
+     unit_bodies p && not_max_zero_multi p (d_min d) (d_max d) && not_single_char_anchored p (d_max d))
+  end.
+
+(* executable acceptance of a string value by one dict / by the declared keywords (used by the harness to attribute failures) *)
+Definition kw_accepts_b (catp : N -> N -> bool) (k : kw) (s : str) : bool :=
+  (match k_pattern k with Some p => search_b catp p s | None => true end) && len_in (k_min k) (k_max k) s.
+Definition decl_accepts_b (catp : N -> N -> bool) (d : decl) (s : str) : bool :=
+  (match d_pattern d with Some p => search_b catp p s | None => true end) && len_in (d_min d) (d_max d) s.
+
+(* witness of the seeded order: a path parameter ^[a-z]$ that declares no length *)
+Definition d_single : decl := mkDecl (Some TyString) NAbsent false (Some w_single) None None.
